@@ -23,7 +23,8 @@ RULE = ("for each initial content (fixed set + seeded random compositions of the
         "new content (absent counts as old when it was absent). Beyond single runs: every call of the window failing with EIO/EINTR (plus "
         "call-specific errnos: EBUSY/EXDEV/EPERM on rename, EACCES/EMFILE on open, early end of file on read); histories (a run killed at a window "
         "call, the file then replaced by other content, a later run must produce exactly what it produces without that history); and two "
-        "overlapping runs (the first held by a tracer delay on entry to its rename, the second killed at write-type calls or running to its end). non-trivial = crash/fault point at or after the first call that "
+        "overlapping runs (the first held by a tracer delay on entry to its rename, the second killed at write-type calls or running to its end); and fault "
+        "pairs: the rename failing with EBUSY/EXDEV plus a kill / ENOSPC / EIO at every call the command makes after that. non-trivial = crash/fault point at or after the first call that "
         "touches the preload file or its temporary sibling; distinct by (content, op, call index, fault)")
 
 FIXED = [None, b"", preload.PH + b"\n", b"/usr/lib/a.so\n", b"/usr/lib/a.so\n" + preload.PH + b"\n/usr/lib/b.so\n",
@@ -47,8 +48,8 @@ def strace(ctl, action, inject=None, out=None):
         cmd += ["-o", out, "-s", "200"]
     else:
         cmd += ["-o", "/dev/null"]      # (no "-e trace=none": injection only applies to traced calls)
-    if inject:
-        cmd += ["-e", "inject=" + inject]
+    for inj in ([inject] if isinstance(inject, str) else (inject or [])):
+        cmd += ["-e", "inject=" + inj]
     cmd += [ctl.ctl, action]
     p = subprocess.run(cmd, env=ctl.env, stdin=subprocess.DEVNULL, stdout=subprocess.PIPE, stderr=subprocess.PIPE, timeout=60)
     return p.returncode
@@ -76,6 +77,25 @@ def dry_run(ctl, content, action):
                 first_touch = len(calls)
             calls.append((name, counts[name], ln.strip()[:160]))
     return old, new, calls, first_touch
+
+
+def trace_with(ctl, content, action, inject):
+    """system calls of a run in which `inject` is active -> [(name, ordinal, text)] from the first call touching the file"""
+    ctl.put(ctl.subst(content))
+    log = os.path.join(ctl.dir, "trace2.log")
+    strace(ctl, action, inject=inject, out=log)
+    calls, counts, touched = [], {}, False
+    with open(log, "r", errors="replace") as f:
+        for ln in f:
+            m = LINE.match(ln)
+            if not m:
+                continue
+            name = m.group(1)
+            counts[name] = counts.get(name, 0) + 1
+            touched = touched or ctl.file in ln
+            if touched:
+                calls.append((name, counts[name], ln.strip()[:160]))
+    return calls
 
 
 def one_run(ctl, content, action, inject, old, new):
@@ -257,6 +277,32 @@ def worker(args):
                             ok, last = confirm(lambda c: pair_run(ctl, c["content"], c["action"], c["overlap"], c["kill"], old, new), case)
                             if ok:
                                 fails.append({"case": case, "what": last.what, "observed": last.observed, "expected": last.expected})
+        # a failing rename followed by a second fault: whatever the command does INSTEAD of the rename is subject to the same rule
+        if new != old and first_touch is not None:
+            for name, ordinal, text in [c for c in calls[first_touch:] if c[0].startswith("rename")][:1]:
+                for e in ("EBUSY", "EXDEV") if not ctx.quick else ("EBUSY",):
+                    first = "%s:error=%s:when=%d" % (name, e, ordinal)
+                    calls2 = trace_with(ctl, content, action, first)
+                    after = False
+                    for n2, o2, t2 in calls2:
+                        if n2 == name and o2 == ordinal:
+                            after = True
+                            continue
+                        if not after or n2 in ("exit_group", "exit") or n2 == name:
+                            continue
+                        seconds = ["%s:signal=KILL:when=%d" % (n2, o2)] + (["%s:error=%s:when=%d" % (n2, e2, o2) for e2 in ("ENOSPC", "EIO")] if n2 in WRITE_CALLS else [])
+                        for second in seconds:
+                            case = {"content": content, "action": action, "inject": [first, second]}
+                            local.count((content, action, "pair", first, second), [action, "pair:failing-rename+second-fault", "call:" + n2], sample=dict(case, call=t2))
+                            try:
+                                one_run(ctl, content, action, [first, second], old, new)
+                            except Failure as f:
+                                if local.is_known(f.key):
+                                    local.known_hit(f.key, f.what)
+                                elif not any(isinstance(x["case"].get("inject"), list) for x in fails):
+                                    ok, last = confirm(lambda c: one_run(ctl, c["content"], c["action"], c["inject"], old, new), case)
+                                    if ok:
+                                        fails.append({"case": case, "what": last.what, "observed": last.observed, "expected": last.expected})
         # short writes
         if new is not None and new != old:
             for limit in sorted({1, max(1, len(new) // 2), max(1, len(new) - 1), 7, 16}):
